@@ -214,6 +214,7 @@ def run_case_file(vfile, outdir):
 
 
 def parse_failing(outfile):
+    """Returns [(index, code)]: `failing` prints a list of indices (code 1), `coded` a list of pairs."""
     txt = open(outfile).read()
     m = re.search(r"=\s*\[(.*?)\]\s*:", txt, re.S)
     if not m:
@@ -221,7 +222,15 @@ def parse_failing(outfile):
     body = m.group(1).strip()
     if not body:
         return []
-    return [int(x.strip().rstrip("%N")) for x in body.split(";")]
+    res = []
+    for x in body.split(";"):
+        x = x.strip().replace("%N", "")
+        pm = re.match(r"\(\s*(\d+)\s*,\s*(\d+)\s*\)", x)
+        if pm:
+            res.append((int(pm.group(1)), int(pm.group(2))))
+        else:
+            res.append((int(x), 1))
+    return res
 
 
 def run_engine(amh, engine, tier, seed, outdir, extra=()):
@@ -277,9 +286,12 @@ def run_engine(amh, engine, tier, seed, outdir, extra=()):
             if idxs is None:
                 res["infra"] = f"cannot parse {of}"
                 return res
-            for i in idxs:
-                res["failures"].append(dict(engine=engine, group=group, index=i,
-                                            case=cases.get((group, i)), kind="model-disagreement"))
+            classes = res["summary"].get("code_classes", {})
+            for (i, code) in idxs:
+                cls = classes.get(str(code), "model-disagreement")
+                res["failures"].append(dict(engine=engine, group=group, index=i, code=code,
+                                            case=cases.get((group, i)), kind=cls,
+                                            **({"class": cls} if cls != "model-disagreement" else {})))
     res["wall_s"] = time.time() - t0
     return res
 
@@ -421,6 +433,13 @@ def check(prop, spec, tier, seed, replay, t0):
             if r["infra"]:
                 infra = r["infra"]
     failures = [f for r in engine_results for f in r["failures"]]
+    relevant = spec.get("relevant_classes")
+
+    def is_relevant(f):
+        return relevant is None or f.get("kind") == "model-disagreement" or f.get("class") in relevant \
+            or f.get("kind") in relevant
+
+    failures = [f for f in failures if is_relevant(f)]
 
     # ---- when a proof obligation broke but the quick correspondence found nothing: search harder
     searched = False
@@ -435,7 +454,7 @@ def check(prop, spec, tier, seed, replay, t0):
             engine_results.append(r)
             if r["infra"]:
                 infra = r["infra"]
-            failures += r["failures"]
+            failures += [f for f in r["failures"] if is_relevant(f)]
 
     known = load_known()
     new_failures, known_hits = [], []
